@@ -264,14 +264,43 @@ theorem full_backup_adds_are_content_chunks {γ} (H : List Node → Id) (chunk :
     · injection ha with ha; subst ha
       exact adds_of_full_run chunk len o load hasData items _ hE0
 
+/-- whether `Archiver::archive` succeeds does not depend on recorded sizes: the only failure of a backup without parent is
+"Tree stack is empty", decided by the bracket structure of the item stream -/
+theorem archive_succeeds_whatever_the_recorded_sizes {γ} (H : List Node → Id) (chunk : γ → List Id) (len : γ → Nat)
+    (load : Id → Option (List Node)) (hasData hasTree : Id → Bool) (o : Opts) (items : List (Item γ)) (f : Node → Nat) :
+    (archive H chunk len load hasData hasTree o [] (items.map (resizeItem f))).isSome =
+      (archive H chunk len load hasData hasTree o [] items).isSome := by
+  have hE0 : EmptyP (PState.init load []) := ⟨rfl, by intro t h; cases h⟩
+  simp only [archive]
+  rw [run_resize o load hasData f items _ hE0, hasPanic_resize]
+  by_cases hp : hasPanic (run o load hasData (PState.init load []) items) = true
+  · simp [hp]
+  · simp only [hp, Bool.false_eq_true, if_false]
+    have hshape : (List.map (fun x => x.1) (List.filterMap (fileStep chunk len hasData)
+          (List.map (resizeOut f) (run o load hasData (PState.init load []) items)))).map tshape =
+        (List.map (fun x => x.1) (List.filterMap (fileStep chunk len hasData)
+          (run o load hasData (PState.init load []) items))).map tshape := by
+      rw [List.map_map, List.map_map, List.filterMap_map, List.map_filterMap, List.map_filterMap]
+      congr 1
+      funext out
+      exact fileStep_resize_shape chunk len hasData f out
+    have hs := addAll_isSome_shape H H hasTree hasTree _ _ ({} : TA) ({} : TA) hshape rfl
+    revert hs
+    cases TA.addAll H hasTree {} (List.map (fun x => x.1) (List.filterMap (fileStep chunk len hasData)
+        (List.map (resizeOut f) (run o load hasData (PState.init load []) items)))) <;>
+      cases TA.addAll H hasTree {} (List.map (fun x => x.1) (List.filterMap (fileStep chunk len hasData)
+        (run o load hasData (PState.init load []) items))) <;> simp
+
 /-- (7') **… independent of the recorded size.**  Give every non-directory node ANY other recorded size (`f`; e.g. 0 for all: the
-same tree read from streams): the blobs handed to the data packer are the same, in the same order. -/
+same tree read from streams): the backup succeeds as well and hands the same blobs to the data packer, in the same order. -/
 theorem chunks_independent_of_recorded_size {γ} (H : List Node → Id) (chunk : γ → List Id) (len : γ → Nat)
     (load : Id → Option (List Node)) (hasData hasTree : Id → Bool) (o : Opts) (items : List (Item γ)) (f : Node → Nat)
-    (a a' : ArchOut)
-    (ha : archive H chunk len load hasData hasTree o [] items = some a)
-    (ha' : archive H chunk len load hasData hasTree o [] (items.map (resizeItem f)) = some a') :
-    a'.dataAdds = a.dataAdds := by
+    (a : ArchOut) (ha : archive H chunk len load hasData hasTree o [] items = some a) :
+    ∃ a', archive H chunk len load hasData hasTree o [] (items.map (resizeItem f)) = some a' ∧ a'.dataAdds = a.dataAdds := by
+  have hs := archive_succeeds_whatever_the_recorded_sizes H chunk len load hasData hasTree o items f
+  rw [ha] at hs
+  obtain ⟨a', ha'⟩ := Option.isSome_iff_exists.mp hs
+  refine ⟨a', ha', ?_⟩
   rw [full_backup_adds_are_content_chunks H chunk len load hasData hasTree o _ a' ha',
     full_backup_adds_are_content_chunks H chunk len load hasData hasTree o _ a ha, List.map_map]
   congr 1
